@@ -457,8 +457,10 @@ def run(ctx):
     thorough = ctx.thorough
     seqlen = ctx.pick(2, 3)
     strlen = ctx.pick(3, 4)
-    subvals = list(range(256)) if thorough else [b[0] for b in SUB_QUICK]
-    bases = list(G.FTYPES) + ["dumpfile-10.mitm"] + (["dumpfile-011.mitm", "dumpfile-018.mitm"] if thorough else [])
+    alpha = [b[0] for b in SUB_QUICK]
+    # quick: udp is left to thorough (its state has the shape of tcp's)
+    bases = (list(G.FTYPES) if thorough else ["http", "ws", "tcp", "dns"]) + ["dumpfile-10.mitm"] + (["dumpfile-011.mitm", "dumpfile-018.mitm"] if thorough else [])
+    full256 = set(G.FTYPES + ["dumpfile-10.mitm"]) if thorough else set()
 
     singles, pairs = rt_cases(thorough)
     seqs = seq_cases(seqlen)
@@ -471,7 +473,8 @@ def run(ctx):
         for o in range(len(data) + 1):
             total.append({"k": "trunc", "b": b, "o": o})
         for o in range(len(data)):
-            for v in subvals:
+            # thorough: all 256 values where the byte is structural (length digit, colon, type tag), the alphabet elsewhere
+            for v in (range(256) if (b in full256 and o in _STRUCT[b]) else alpha):
                 if v != data[o]:
                     total.append({"k": "sub", "b": b, "o": o, "v": v})
     nbyte = len(total)
@@ -505,7 +508,7 @@ def run(ctx):
         "fields_per_type": {ft: len({d.field for d in G.deviations(ft)}) for ft in G.FTYPES},
         "max_deviations": 2, "pair_space": "all pairs on different fields" if thorough else "pairs of core (interacting) fields",
         "sequence_pool": len(seq_pool()), "max_sequence_length": seqlen,
-        "base_files": bases, "substitution_values": len(subvals), "short_string_alphabet": [s.decode("latin1") for s in SUB_QUICK],
+        "base_files": bases, "substitution_values": "all 256 at structural bytes of the 6 small base files, 14-symbol alphabet elsewhere" if thorough else "14-symbol alphabet at every byte", "short_string_alphabet": [s.decode("latin1") for s in SUB_QUICK],
         "short_string_maxlen": strlen, "wrong_values": len(WRONG), "state_mutation_pairs": bool(thorough),
         "versions_relabelled": len(VERSIONS) + len(JUNK_VERSIONS), "nesting_depths": [50, 200, 5000],
     }
